@@ -16,8 +16,8 @@ TECH = "machine-checked proof in Coq 8.16.1 about an executable Gallina model; m
 
 P = {
  "C01": dict(
-  text="Partial. Theorems (all inputs): exact crossing oracle (cross_b_spec, parametric form over Q), sound validity oracle, half-pixel closeness of every routed edge (routed_edge_close), the sweep lemma of snap rounding; on the class of C18, end to end, two partial results: returned edges whose source edges are farther than one pixel apart have no common point (C01_partial_far_edges_do_not_meet, from the C18 edge theorem + half-pixel closeness + the triangle inequality) and two steps of one routed chain never cross (C01_partial_same_chain_no_cross, columns and rows are monotone in travel order) and, the discrete half of the deformation argument at its end point, no vertex of the returned geometry lies in the interior of a returned edge (C01_partial_no_vertex_inside_edge_on_class: the centre of a hot pixel on a routed step is an end of it) — what is left is the continuity half (segments moving linearly cannot start to cross without an end point passing through the other; the contact time is irrational in general, so it needs the reals) for steps of different chains whose source edges come within one pixel of each other; C01_refuted / C01_refuted_implication: the full statement is machine-checked FALSE for the faithful model on a valid polygon with a hole (finding F5), replayed on the implementation. The global implication 'valid input => no crossing' (Guibas-Marimont deformation argument) is NOT a theorem: decided on every run by exact search over generated valid polygons on the implementation; model tied by vm_compute correspondence on edge multisets.",
-  note="Trusted: Coq kernel+vm_compute; hand-written Index/Snap model tied by correspondence (tie H) on every run and G2 for the leaf functions; float predicates modelled by exact integer versions (checked envelope); search is not proof for the global clause. Known finding F5 attributed by mechanism.",
+  text="Full on the class of C18, refuted beyond it. C01_routed_steps_do_not_cross: for a valid polygon inside the grid and every level within the index (exact pixel middles) no two routed steps — pairs of consecutive centres of the centre lists of polygon edges — cross properly: the Guibas-Marimont deformation argument completed (first contact of linearly moving segments by real analysis, sweep lemma at a real time, travel order of consecutive hot pixels, valid polygons have edges that touch only at common end points). C01_on_class: snapPolygon, valid polygon, every routed-and-cleaned ring of every requested level visits no pixel centre at three positions => no two edges of the returned geometry of a level cross (every returned edge is a routed step there, C18). Also: exact crossing oracle, sound validity oracle, half-pixel closeness, the sweep lemma, the partial steps (far source edges, same chain, no vertex inside an edge). C01_refuted / C01_refuted_implication: outside the class the statement is machine-checked FALSE for the faithful model on a valid polygon with a hole (finding F5), replayed on the implementation; there the implication is decided on every run by exact search over generated valid polygons; model tied by vm_compute correspondence on edge multisets.",
+  note="Trusted: Coq kernel+vm_compute; AXIOMS (only for C01_routed_steps_do_not_cross and C01_on_class, no other theorem of the development): the Coq standard library's real numbers — ClassicalDedekindReals.sig_forall_dec, ClassicalDedekindReals.sig_not_dec, FunctionalExtensionality.functional_extensionality_dep (the first contact time of the deformation is irrational in general); hand-written Index/Snap model tied by correspondence (tie H) on every run and G2 for the leaf functions; float predicates modelled by exact integer versions (checked envelope); search is not proof outside the class. Known finding F5 attributed by mechanism.",
   tech=TECH + " (tie H + G2); exact-arithmetic search for the unproved global clause", ref="DESIGN.md 6 C01"),
  "C02": dict(
   text="Full. For all segments, hot sets, depths and every tie: lineIntersects = 'closed segment meets half-open box' (over Q); findIntersectingQuadrants returns exactly the occupied children met, NoDup, in travel order (mutex and 'certain' shortcuts justified); by induction over levels the route is the NoDup list of occupied pixels met, strongly sorted by travel order, starting at the pixel of a and ending at the pixel of b, reversing with the segment — on any grid whose stored extent covers its pixels (FromTileMatrixSet-style grids qualify). C02_source_tie: containsPoint, getInfiniteQuadrant, the quadrantsToCheck table, oneIfRight/Top are regenerated from pointindex.go on every run and proved equal to the model. The polygon-level clause is a theorem of the model (C02_polygon_noncollapsing, C02_snapPolygon_noncollapsing; no routing or kmp premise left): when every routed-and-cleaned ring (chain) has at least three centres and non-zero area and no centre occurs twice in all chains together, snapLevel — and snapPolygon at every requested level — returns exactly the first chain written counter-clockwise as shell and the others written clockwise as holes (attached iff ringContains finds a vertex in or on the shell, otherwise shells of their own), reversed under the flag; without holes exactly [[chain]]; and the chain IS the concatenation of the routed edges, joints written once (C02_chain_is_concatenation_of_routed_edges). It is also held to the implementation by the exact correspondence and an independent exact-rational oracle.",
